@@ -23,7 +23,7 @@ func run(t *testing.T, part string, n int) {
 	r.Finish()
 }
 
-func TestVerif_Ops(t *testing.T)     { run(t, "ops", vkit.N(3000, 150000)) }
+func TestVerif_Ops(t *testing.T) { run(t, "ops", vkit.N(3000, 150000)) }
 
 // Wide fan-out keys (see C04 battery-wide): return values of writes whose radix nodes are promoted/demoted.
 func TestVerif_OpsWide(t *testing.T) {
